@@ -10,7 +10,6 @@ From GT Require Import WGTimed WGTimedProofs WGFair.
 From GT Require Import Base.ConcIR2.
 From GT Require Import WGSim WGSimProps.
 From GT Require Import WGPropLemmas.
-From GT Require Import WGJudge WGJudgeProofs.
 Import ListNotations.
 Local Open Scope Z_scope.
 
@@ -181,33 +180,13 @@ Example C02_example_negative_excursion :
   closed (sh cf) = [1%nat; 0%nat] /\ c02_ok (tr cf) = true.
 Proof. vm_compute. repeat split; reflexivity. Qed.
 
-(* what a verdict of the judges that run on the recorded traces MEANS: a failing input reported
-   because the monitor rejected a (well-formed) recording is a recording that violates the sentence
-   c02_spec; verdict 0 is a recording that satisfies it, whose probes answered as the statement
-   demands and which equals the machine's trace.  For the judge inside C01's side condition and
-   for the unconditional one (negative excursions), which agrees with the former wherever that
-   one looks. *)
-Theorem C02_judged_violation_is_real : forall c,
-  obs_wf c = true -> c02_ok (obs_trace c) = false -> ~ c02_spec (obs_trace c).
-Proof. exact monitor_reject_violates. Qed.
-
-Theorem C02_judge_unc_one : forall c, c02_judge_unc c = 1%nat ->
-  obs_wf c = true /\
-  (c02_ok (obs_trace c) = false \/ tmo_ok c = false \/ probes_ok c = false).
-Proof. exact c02_judge_unc_one. Qed.
-
-Theorem C02_judge_unc_zero : forall c, c02_judge_unc c = 0%nat ->
-  c02_spec (obs_trace c) /\ tmo_ok c = true /\ probes_ok c = true /\
-  model_eq c = true /\ tmo_model c = true.
-Proof. exact c02_judge_unc_zero. Qed.
-
-Theorem C02_judge_one : forall c, c02_judge c = 1%nat ->
-  in_domain c = true /\ obs_wf c = true /\
-  (c02_ok (obs_trace c) = false \/ tmo_ok c = false \/ probes_ok c = false).
-Proof. exact c02_judge_one. Qed.
-
-Theorem C02_judge_unc_extends : forall c, in_domain c = true -> c02_judge_unc c = c02_judge c.
-Proof. exact c02_judge_unc_extends. Qed.
+(* What a verdict of the judges that run on the recorded traces MEANS for c02_spec (a rejected
+   well-formed recording violates the sentence; verdict 0 satisfies it, with the probes and the
+   machine's trace; the unconditional judge extends the gated one) is proved in WGJudgeProofs.v:
+   monitor_reject_violates, c02_judge_unc_one / _zero, c02_judge_one / _zero,
+   c02_judge_unc_extends.  They are kept out of this file because WGJudge.v decodes packed cases
+   with primitive 63-bit integers, whose standard-library axioms coqchk would then list for the
+   property theorems above, which do not depend on them. *)
 
 (* the pinned code violates the statement: after a schedule of 2 goroutines every Add has
    returned, Count() = sum of deltas = 1, yet the closed sentinel is installed and a fresh Wait
@@ -241,11 +220,6 @@ Example C02_example_wait_steps :
 Proof. exact c02_wait_steps_example. Qed.
 
 Print Assumptions C02_rest.
-Print Assumptions C02_judged_violation_is_real.
-Print Assumptions C02_judge_unc_one.
-Print Assumptions C02_judge_unc_zero.
-Print Assumptions C02_judge_one.
-Print Assumptions C02_judge_unc_extends.
 Print Assumptions C02_monitor.
 Print Assumptions C02_monitor_sound.
 Print Assumptions C02_monitor_exact.
